@@ -125,6 +125,16 @@ class Gen:
     def kind_of(self, ty):
         return self.types[ty[1]]["k"]
 
+    def record_types(self):
+        """record types in play: those of the variables in scope and of the functions' results / parameters"""
+        out = []
+        pool = [t for (_, t) in self.all_vars()] + [fn["rt"] for fn in self.fns.values()] + \
+               [t for fn in self.fns.values() for t in fn["pts"]]
+        for t in pool:
+            if isinstance(t, list) and t[0] == "named" and self.kind_of(t) == "record" and t not in out:
+                out.append(t)
+        return out
+
     def named_instance(self, name, depth):
         d = self.types[name]
         if not d.get("ps"):
@@ -488,6 +498,22 @@ class Gen:
                     for fn_, ft in self.fields_of(t):
                         if ft == ty:
                             cands.append((n, fn_))
+            if self.has("exprstmt") and r.random() < 0.4:
+                # the base is not a path but a computed record: the result of a call, a block, or a literal
+                bases = []
+                for rt_ in self.record_types():
+                    for fn_, ft in self.fields_of(rt_):
+                        if ft == ty:
+                            bases.append((rt_, fn_))
+                if bases:
+                    rt_, fn_ = r.choice(bases)
+                    fcs = [n for n, fn in self.fns.items() if fn["rt"] == rt_ and not fn.get("special")]
+                    if fcs and self.has("calls") and self.in_for == 0 and r.random() < 0.6:
+                        n = r.choice(fcs)
+                        base = {"k": "call", "f": n, "args": [self.expr(t, d - 1, True) for t in self.fns[n]["pts"]]}
+                    else:
+                        base = block([], self.construct(rt_, d))
+                    return {"k": "field", "e": base, "f": fn_}
             if not cands:
                 return self.leaf(ty, ctx_fixed)
             n, fn_ = r.choice(cands)
@@ -525,6 +551,25 @@ class Gen:
                 return self.leaf(ty, ctx_fixed)
             return {"k": "lcall", "m": "len", "r": var(r.choice(cands)), "args": []}
         return self.leaf(ty, ctx_fixed)
+
+    def expr0_field(self, ty, d):
+        """a field read of type ty (None if no record in play has such a field)"""
+        r = self.r
+        bases = [(rt_, fn_) for rt_ in self.record_types() for fn_, ft in self.fields_of(rt_) if ft == ty]
+        if not bases:
+            return None
+        rt_, fn_ = r.choice(bases)
+        vs = [n for (n, t) in self.all_vars() if t == rt_]
+        fcs = [n for n, fn in self.fns.items() if fn["rt"] == rt_ and not fn.get("special")]
+        x = r.random()
+        if fcs and self.has("calls") and self.in_for == 0 and x < 0.5:
+            n = r.choice(fcs)
+            base = {"k": "call", "f": n, "args": [self.expr(t, d - 1, True) for t in self.fns[n]["pts"]]}
+        elif vs and x < 0.75:
+            base = var(r.choice(vs))
+        else:
+            base = block([], self.construct(rt_, d))
+        return {"k": "field", "e": base, "f": fn_}
 
     def atom(self, ty, d):
         """an expression that can be a method receiver without parentheses trouble"""
@@ -639,6 +684,8 @@ class Gen:
             forms += ["usetr"] * 2
         if self.has("copymut"):
             forms += ["copymut"] * 3 + ["observe"] * 2
+        if self.has("exprstmt"):
+            forms += ["exprstmt"] * 2
         if d > 0:
             forms += ["if", "cset", "setfield"]
             if self.has("loops"):
@@ -724,6 +771,16 @@ class Gen:
             if f == "observe":
                 return block(self.observe(var(n), t, 3))
             return self.copymut(n, t, d)
+        if f == "exprstmt":
+            # an expression used as a statement: evaluated for its effects, the value is discarded
+            ty = self.random_ty(1)
+            e = self.expr(ty, max(d, 1), False)
+            if isinstance(ty, str) and r.random() < 0.5:
+                # often a field read (of a variable, of a call result, of a literal)
+                e2 = self.expr0_field(ty, max(d, 1))
+                if e2 is not None:
+                    e = e2
+            return e
         if f == "emit":
             return self.stmt_emit(d)
         if f == "tick":
@@ -893,6 +950,30 @@ class Gen:
                 ss.append(let(c2, ty, ext))
                 ss.append(host("emit", "bool", self.tag(), [binop("eq", "list", var(n), var(c2))]))
                 ss.append(host("emit", "bool", self.tag(), [binop("ne", "list", var(c2), var(c))]))
+        elif self.has("calls") and self.in_for == 0 and ty[0] == "named" and r.random() < 0.35:
+            # the value is passed to a function that changes its parameter (a field of it, or all of it) and observes
+            # it; parameters are copies: the caller's variable must be unchanged. Sometimes the same variable is
+            # given to two parameters of which only the first is changed.
+            ss = []
+            both = r.random() < 0.4
+            name = "pm%d" % len([k for k in self.fns if k.startswith("pm")])
+            qs = [self.fresh("q")] + ([self.fresh("q")] if both else [])
+            saved = (self.scopes, self.cur_rt, self.in_opt_fn, self.in_for)
+            self.scopes, self.cur_rt, self.in_opt_fn, self.in_for = [[(q, ty) for q in qs]], "unit", False, 0
+            body = []
+            paths = self.field_paths(ty, [qs[0]], 2)
+            if paths and r.random() < 0.75:
+                path, ft = r.choice(paths)
+                body.append({"k": "set", "p": path, "e": self.expr(ft, 1, True)})
+            else:
+                body.append({"k": "set", "p": [qs[0]], "e": self.construct(ty, 1)})
+            for q in qs:
+                body += self.observe(var(q), ty, 3)
+            self.scopes, self.cur_rt, self.in_opt_fn, self.in_for = saved
+            self.fns[name] = {"ps": qs, "pts": [ty for _ in qs], "rt": "unit", "b": block(body), "special": True}
+            ss.append({"k": "call", "f": name, "args": [var(n) for _ in qs]})
+            ss += self.observe(var(n), ty, 3)
+            return block(ss)
         else:
             paths = self.field_paths(ty, [target], 2)
             if paths and r.random() < 0.7:
